@@ -11,29 +11,29 @@ CONSTANT Scope,        \* "full": all ordered pairs of points; "points": single-
          Iterated      \* TRUE: also compare SMul with the recursive Mul for every k in -2N..2N (small curves;
                        \* on the others MulStep is the induction step of the same statement)
 
-VARIABLES p, q, ph
-vars == <<p, q, ph>>
+VARIABLES pa, pb, ph
+vars == <<pa, pb, ph>>
 
 \* curve-level lemmas, evaluated once (in the state p = q = Inf; TLC evaluates ASSUMEs without its
 \* cache of constant definitions, which makes them many times slower there)
-CurveOk == P % 2 = 1 /\ N % 2 = 1 /\ NonSingular /\ Cyclic /\ InvTabOk
-PfxOk   == \A x \in Fp : PointsForXOk(x)
+CurveOk(n) == P % 2 = 1 /\ n % 2 = 1 /\ NonSingular /\ Cyclic(n) /\ InvTabOk(P, n)
+PfxOk(S)   == \A x \in S : PointsForXOk(x)
 
-Init == /\ p \in (IF Scope = "assume" THEN {Inf} ELSE Points)
-        /\ q \in (IF Scope = "full" THEN Points ELSE {Inf})
+Init == /\ pa \in (IF Scope = "assume" THEN {Inf} ELSE Points)
+        /\ pb \in (IF Scope = "full" THEN Points ELSE {Inf})
         /\ ph = 0
-Check == ph = 0 /\ ph' = 1 /\ UNCHANGED <<p, q>>
+Check == ph = 0 /\ ph' = 1 /\ UNCHANGED <<pa, pb>>
 Next == Check
 Spec == Init /\ [][Next]_vars
 
-PairLemmas == /\ Closure(p, q) /\ Commut(p, q) /\ Assoc(p, q)
-              /\ ReprInvariant(p, q)
-              /\ \A k \in {0 - 1, 2, 3} : SMul(k, Add(p, q)) = Add(SMul(k, p), SMul(k, q))
-PointLemmas == /\ Identity(p) /\ Inverse(p) /\ MulStep(p) /\ OrderKills(p) /\ MulPeriodic(p)
-               /\ MulHomomorphic(p, Inf)
-               /\ (Iterated => MulIsIterated(p))
-               /\ \A b \in 0..(N - 1) : SMul(b, G) = p => BlindingCancels(b)   \* every blinding factor, once
+PairLemmas == /\ Closure(pa, pb) /\ Commut(pa, pb) /\ Assoc(pa, pb)
+              /\ ReprInvariant(pa, pb)
+              /\ \A k \in {0 - 1, 2, 3} : SMul(k, Add(pa, pb)) = Add(SMul(k, pa), SMul(k, pb))
+PointLemmas == /\ Identity(pa) /\ Inverse(pa) /\ MulStep(pa) /\ OrderKills(pa) /\ MulPeriodic(pa)
+               /\ MulHomomorphic(pa, Inf)
+               /\ (Iterated => MulIsIterated(pa))
+               /\ \A b \in 0..(N - 1) : SMul(b, G) = pa => BlindingCancels(b)   \* every blinding factor, once
 GroupLaw == ph = 1 => /\ PairLemmas
-                      /\ (q = Inf => PointLemmas)
-                      /\ (p = Inf /\ q = Inf => CurveOk /\ PfxOk)
+                      /\ (pb = Inf => PointLemmas)
+                      /\ (pa = Inf /\ pb = Inf => CurveOk(N) /\ PfxOk(Fp))
 =============================================================================
